@@ -3,13 +3,17 @@
 (* Writer state machine over a schema catalogue, all null patterns, all splits of each    *)
 (* column's rows into write_batch calls, row-group cuts and definition levels given or    *)
 (* omitted, and prints every complete history (ending in Close) as JSON.                  *)
-EXTENDS Writer, Values, TLC, Json
+EXTENDS Writer, Values, TLC, Json, FiniteSets
 CONSTANTS SchemaIds,      \* subset of DOMAIN Catalogue
           RowChoices,     \* set of total row counts per row group
           MaxGroups,      \* max number of NewRowGroup cuts
           MaxBatches,     \* max write_batch calls per column per row group
           NullMode,       \* "all" (every null pattern) | "runs" (run-structured patterns)
-          AnyOrder      \* TRUE: columns of a row group may be written in any order
+          AnyOrder,     \* TRUE: columns of a row group may be written in any order
+          Sample,       \* TRUE: null patterns, batch sizes and def-level choices are not enumerated but picked by a
+                        \*       deterministic hash of (Seed, replica, position in the history): one successor per state,
+                        \*       Replicas different histories per (schema, row-count choices)
+          Replicas, Seed
 VARIABLES hist, plan      \* plan: rows of the current row group, null patterns; hist: ops so far
 
 Col(n, t, r, l) == [name |-> n, type |-> t, rep |-> r, tlen |-> l]
@@ -39,17 +43,21 @@ gvars == <<wst, schema, cur, done, hist, plan>>
 Init == WInit /\ hist = <<>> /\ plan = [stage |-> "schema"]
 
 GCreate == /\ plan.stage = "schema"
-           /\ \E s \in SchemaIds :
+           /\ \E s \in SchemaIds : \E r \in 1..Replicas :
                  /\ Create(Catalogue[s])
                  /\ hist' = <<[op |-> "Create", cols |-> Catalogue[s]]>>
-                 /\ plan' = [stage |-> "rg", sid |-> s, groups |-> 0, base |-> 0]
+                 /\ plan' = [stage |-> "rg", sid |-> s, groups |-> 0, base |-> 0, r |-> r]
 
 \* start a row group: choose its row count and the null pattern of every OPTIONAL column
+\* deterministic pseudo-random pick (all intermediate values < 2^31)
+Mix(a, b, c) == (((((Seed % 1000) * 7919) + (plan.r * 104729) + (a * 1299709) + (b * 15485863) + (c * 32452843)) % 2147483) * 613 + a + b + c) % 1000003
+PickFrom(S, h) == SetToSeq(S)[1 + (h % Cardinality(S))]
+PatChoices(n) == IF Sample THEN {[c \in 1..NCols |-> IF MaxDef(c) = 0 THEN [i \in 1..n |-> 0] ELSE PickFrom(Patterns(n), Mix(plan.groups, c, n))]}
+                 ELSE {p \in [1..NCols -> Patterns(n)] : \A c \in 1..NCols : MaxDef(c) = 0 => \A i \in 1..n : p[c][i] = 0}
 GBegin == /\ plan.stage = "rg" /\ wst = "open" /\ plan.groups < MaxGroups
           /\ \E n \in RowChoices :
-               \E pats \in [1..NCols -> Patterns(n)] :
-                 /\ \A c \in 1..NCols : MaxDef(c) = 0 => \A i \in 1..n : pats[c][i] = 0
-                 /\ plan' = [stage |-> "fill", sid |-> plan.sid, groups |-> plan.groups, base |-> plan.base,
+               \E pats \in PatChoices(n) :
+                 /\ plan' = [stage |-> "fill", sid |-> plan.sid, groups |-> plan.groups, base |-> plan.base, r |-> plan.r,
                              n |-> n, pats |-> pats, cnt |-> [c \in 1..NCols |-> 0]]
                  /\ UNCHANGED <<wst, schema, cur, done, hist>>
 
@@ -63,14 +71,14 @@ MayWrite(c) == /\ Rows(cur[c]) < plan.n
                /\ (AnyOrder \/ \A d \in 1..(c - 1) : Rows(cur[d]) = plan.n)
 
 GWrite == /\ plan.stage = "fill"
-          /\ \E c \in 1..NCols : MayWrite(c) /\ plan.cnt[c] < MaxBatches /\
-               \E k \in 1..(plan.n - Rows(cur[c])) :
+          /\ \E c \in 1..NCols : MayWrite(c) /\ (Sample \/ plan.cnt[c] < MaxBatches) /\
+               \E k \in (IF Sample THEN {1 + (Mix(Len(hist), c, 3) % (plan.n - Rows(cur[c])))} ELSE 1..(plan.n - Rows(cur[c]))) :
                  \* the last allowed batch must take all remaining rows
-                 /\ (plan.cnt[c] = MaxBatches - 1 => k = plan.n - Rows(cur[c]))
+                 /\ (plan.cnt[c] = MaxBatches - 1 /\ ~Sample => k = plan.n - Rows(cur[c]))
                  /\ LET from == Rows(cur[c])
                         defs == [i \in 1..k |-> plan.pats[c][from + i]]
                         allPresent == \A i \in 1..k : defs[i] = MaxDef(c)
-                    IN \E withDefs \in (IF MaxDef(c) = 1 /\ allPresent THEN {TRUE, FALSE}
+                    IN \E withDefs \in (IF MaxDef(c) = 1 /\ allPresent THEN (IF Sample THEN {Mix(Len(hist), c, 5) % 2 = 0} ELSE {TRUE, FALSE})
                                         ELSE IF MaxDef(c) = 1 THEN {TRUE} ELSE {FALSE}) :
                           /\ WriteBatch(c, k, withDefs, defs, ValsOf(c, from, k))
                           /\ hist' = Append(hist, [op |-> "WriteBatch", c |-> c - 1, n |-> k, withDefs |-> withDefs,
@@ -82,7 +90,7 @@ GFilled == plan.stage = "fill" /\ \A c \in 1..NCols : Rows(cur[c]) = plan.n
 GNewRowGroup == /\ GFilled /\ plan.groups + 1 < MaxGroups
                 /\ NewRowGroup
                 /\ hist' = Append(hist, [op |-> "NewRowGroup"])
-                /\ plan' = [stage |-> "rg", sid |-> plan.sid, groups |-> plan.groups + 1, base |-> plan.base + plan.n]
+                /\ plan' = [stage |-> "rg", sid |-> plan.sid, groups |-> plan.groups + 1, base |-> plan.base + plan.n, r |-> plan.r]
 
 GClose == /\ (GFilled \/ (plan.stage = "rg" /\ wst = "open"))
           /\ Close
